@@ -247,6 +247,9 @@ def exec_cases(pid, cases, tag):
     return list(zip_results(b, c))
 
 
+CRASHES = []   # harness process deaths of this check run (reported even if no single case reproduces them)
+
+
 def gen_and_compare(pid, seed, tier, tag, log, timeout=3000):
     d = os.path.join(WORK, pid)
     os.makedirs(d, exist_ok=True)
@@ -258,6 +261,9 @@ def gen_and_compare(pid, seed, tier, tag, log, timeout=3000):
                    env=goenv(), timeout=timeout)
     if rc != 0:
         log.append("harness gen failed rc=%d:\n%s" % (rc, o[-4000:]))
+        # the process died: whatever the isolation below finds (a crash that needs minutes of run time, or an
+        # interleaving, does not show again when one case is re-executed alone), the run is not a clean one
+        CRASHES.append("harness process died (rc=%d) in the %s run: %s" % (rc, tag, " ".join(o.strip().split("\n")[:6])[:600]))
         crash = isolate_crash(pid, seed, tier, tag, log, o)
         if crash is None:
             return None, {}, dt
@@ -467,6 +473,9 @@ def run_check(pid, tier, seed, cfg, a, t0, log):
         write_evidence(pid, tier, seed, cfg, obligations, discharged, [], stats, t0, 1, problems + ["harness run failed"], leancheck, {})
         print("VIOLATION property=%s replay=%s no-failing-input-found" % (pid, rp))
         return 1
+    for cr in CRASHES:
+        if ("crash:" + cr) not in problems:
+            problems.append("crash:" + cr)
     summary = summarise(files, pid)
     return verdict(pid, tier, seed, cfg, obligations, discharged, problems, summary, stats, t0, leancheck, log)
 
